@@ -385,7 +385,8 @@ func parseTextWebVTT(i string, sa *StyleAttributes) (o Line) {
 				if tagName == "v" {
 					if o.VoiceName == "" {
 						// Only get voicename of the first <v> appears in the line
-						o.VoiceName = annotation
+						// The annotation may hold character references (a literal & has to be written &amp;)
+						o.VoiceName = unescapeHTML(annotation)
 					} else {
 						// TODO: do something with other <v> instead of ignoring
 						log.Printf("astisub: found another voice name %q in %q. Ignore", annotation, i)
@@ -671,7 +672,7 @@ func (s Subtitles) WriteToWebVTT(o io.Writer) (err error) {
 
 func (l Line) webVTTBytes() (c []byte) {
 	if l.VoiceName != "" {
-		c = append(c, []byte("<v "+l.VoiceName+">")...)
+		c = append(c, []byte("<v "+escapeHTML(l.VoiceName)+">")...)
 	}
 	for idx := 0; idx < len(l.Items); idx++ {
 		var previous, next *LineItem
